@@ -1,5 +1,6 @@
 import CheetahModel.Proofs.ElementMaps
 import CheetahModel.Proofs.DriftSymplectic
+import CheetahModel.Proofs.CoordSymplectic
 /-!
 # C03 — maps conserve phase-space volume (symplectic; cavity damps by E_in/E_out)
 
@@ -111,6 +112,36 @@ only to first order about the design orbit -/
 theorem bmadx_drift_symplectic (L : ℝ) (p : BP ℝ) (p0c m : ℝ) :
     (DriftSympl.jac L p p0c m).transpose * DriftSympl.S3 * DriftSympl.jac L p p0c m = DriftSympl.S3 :=
   DriftSympl.jacobian_symplectic L p p0c m
+
+/-- the Jacobian of Cheetah's longitudinal coordinates in terms of Bmad's, `(τ, δ) ↦ (z, pz)` (`cheetah_to_bmad_z_pz`), entry
+by entry, for every physical particle (energy above the rest energy): `[[−β, −β'τ], [0, 1/β]]` -/
+theorem zpz_jacobian_entries (E0 m d tau : ℝ) (hE : 0 < CoordSympl.en E0 m d)
+    (hp : 0 < CoordSympl.en E0 m d * CoordSympl.en E0 m d - m * m) (hp0 : 0 < E0 * E0 - m * m) :
+    HasDerivAt (fun t => (toBmad t d E0 m).z) (-(CoordSympl.beta E0 m d)) tau ∧
+    HasDerivAt (fun t => (toBmad tau t E0 m).z)
+      (-(√(E0 * E0 - m * m) * (m * m) / (CoordSympl.pc E0 m d * (CoordSympl.en E0 m d * CoordSympl.en E0 m d))) * tau) d ∧
+    HasDerivAt (fun t => (toBmad t d E0 m).pz) 0 tau ∧
+    HasDerivAt (fun t => (toBmad tau t E0 m).pz) (1 / CoordSympl.beta E0 m d) d :=
+  ⟨CoordSympl.dz_dtau E0 m d tau hE hp, CoordSympl.dz_ddelta E0 m d tau hE hp, CoordSympl.dpz_dtau E0 m d tau,
+   CoordSympl.dpz_ddelta E0 m d tau hE hp hp0⟩
+
+/-- … its determinant is −1: the change of coordinates is anti-canonical, which is why `S₆` carries `−J` in the third pair -/
+theorem zpz_jacobian_det (E0 m d tau : ℝ) (hE : 0 < CoordSympl.en E0 m d)
+    (hp : 0 < CoordSympl.en E0 m d * CoordSympl.en E0 m d - m * m) (hp0 : 0 < E0 * E0 - m * m) :
+    (!![-(CoordSympl.beta E0 m d),
+        -(√(E0 * E0 - m * m) * (m * m) / (CoordSympl.pc E0 m d * (CoordSympl.en E0 m d * CoordSympl.en E0 m d))) * tau;
+        0, 1 / CoordSympl.beta E0 m d] : Matrix (Fin 2) (Fin 2) ℝ).det = -1 :=
+  CoordSympl.jacobian_det E0 m d tau hE hp hp0
+
+/-- **the Bmad-X drift in Cheetah coordinates preserves `S₆`**: with the coordinate-change Jacobians at the entrance (`k₁`)
+and at the exit (`k₂`; δ is unchanged by a drift, τ is not) — both of determinant −1 — the chain-rule product
+`K₂⁻¹ · jac · K₁` is `S₆`-symplectic, at every transportable particle -/
+theorem bmadx_drift_symplectic_cheetah (L : ℝ) (p : BP ℝ) (p0c m : ℝ) (k1 k2 : Matrix (Fin 2) (Fin 2) ℝ)
+    (h1 : k1.det = -1) (h2 : k2.det = -1) (hu : IsUnit (CoordSympl.lift k2).det) :
+    ((CoordSympl.lift k2)⁻¹ * DriftSympl.jac L p p0c m * CoordSympl.lift k1)ᵀ * CoordSympl.S6c *
+      ((CoordSympl.lift k2)⁻¹ * DriftSympl.jac L p p0c m * CoordSympl.lift k1) = CoordSympl.S6c :=
+  CoordSympl.conj_symplectic _ _ _ (CoordSympl.lift_pullback k1 h1) (CoordSympl.lift_pullback k2 h2)
+    (DriftSympl.jacobian_symplectic L p p0c m) hu
 
 /-- non-vacuity: a particle 1 mrad / 2 mrad off axis with 3 % momentum deviation is transportable -/
 example : (0:ℝ) < 1 + 0.03 ∧ 0 < DriftSympl.sq 0.001 0.002 (0.03:ℝ) := by
